@@ -1,6 +1,7 @@
 package checks
 
 import (
+	"encoding/json"
 	"fmt"
 	"reflect"
 	"sort"
@@ -30,13 +31,17 @@ func init() {
 	rig.Register(&rig.Check{
 		ID:    "C01",
 		Floor: 40,
-		Rule: "case = (feature type T, prior state pristine|after a random prefix of subscribes, binds and data updates, sending peer 0..2); its cells are the request matrix classifier x function x ack (requested, omitted, explicitly false) x destination kind (NodeManagement, server, client, a special-role data feature, unknown), " +
+		Rule: "case = (feature type T, prior state pristine|after a random prefix of subscribes, binds and data updates, sending peer 0..2); its cells are the request matrix classifier x function x ack (requested, omitted, explicitly false) x destination kind (NodeManagement, server, client, a special-role data feature, unknown in five address forms, foreign device part), walked in a per-case shuffled order, a fifth of the datagrams carrying the cmd twice, a third of the reply/result cells referencing a request of the stack that is really outstanding, " +
 			"enumerated completely in every case of both tiers (quick: two rounds over all feature types, prior states and senders, the second sending from the nested entity [1,1]; thorough: eight rounds with fresh prefixes and payloads). A case is non-trivial if at least one reply, one success result and one error result were observed and judged; " +
 			"distinct = distinct (T, prior state, sender, set of response classes seen).",
 		Assumptions: []string{
 			"message handling is synchronous in HandleSpineMesssage when no approval callback is registered, so the trace is complete when the call returns",
 			"acceptance is predicted only where the statement leaves no doubt; elsewhere the shape (exactly one of the allowed response sets, never both, never twice) is asserted",
 			"the stack's re-request (a read without reference) after a rejected notify is allowed",
+			"datagrams WITHOUT the request's reference are predicted from harness state on every tap: at most one re-read of the same function (addressed feature -> request source) after a notify answered with an error; at most one notify per reference subscriber of the written feature after an accepted write; at most one subscription call and one use-case read (local NodeManagement -> sender's NodeManagement) after an accepted discovery reply. Anything else is a violation of 'no more' (their presence is other properties' subject and not demanded here)",
+			"a datagram carrying the same cmd twice is one request: exactly one response set, as for the single cmd",
+			"a destination naming another device than the local one (a connected peer's address or an unknown one) is a destination feature that does not exist here: one error result",
+			"the heartbeat timer of the DeviceDiagnosis world is stopped by the harness (it would write data and notify at wall-clock times); the expectation for reply content is the harness's own record of SetData calls and accepted full writes, after one JSON round trip",
 		},
 		Parts: []rig.Part{{
 			Name: "matrix",
@@ -66,6 +71,32 @@ func c01Types() []model.FeatureTypeType {
 	return ts
 }
 
+// c01PinnedRows: the number of functions the function table registers per feature type, i.e. the rows of
+// the request matrix, as the unchanged tree yields them. A function silently leaving (or entering) a
+// feature type's table changes what "every function registered for the addressed feature type" means
+// without any cell failing, so the counts are pinned here and a difference is reported.
+var c01PinnedRows = map[model.FeatureTypeType]int{
+	"ActuatorLevel": 2, "ActuatorSwitch": 2, "Alarm": 1, "DataTunneling": 1, "DeviceClassification": 2, "DeviceDiagnosis": 3,
+	"DirectControl": 2, "ElectricalConnection": 6, "HVAC": 8, "LoadControl": 6, "Measurement": 5, "Messaging": 1,
+	"NetworkManagement": 12, "OperatingConstraints": 6, "PowerSequences": 13, "Sensing": 2, "Setpoint": 3,
+	"SmartEnergyManagementPs": 4, "TaskManagement": 4, "Threshold": 3, "TimeInformation": 4, "TimeTable": 3,
+	"DeviceConfiguration": 3, "SupplyCondition": 3, "TimeSeries": 3, "TariffInformation": 12, "IncentiveTable": 3,
+	"Bill": 3, "Identification": 3, "StateInformation": 1,
+}
+
+// the payload fields of model.CmdType whose function name starts with "nodeManagement" (rows of the NodeManagement block)
+const c01PinnedNMRows = 9
+
+type c01Sub struct {
+	peer   int
+	client *model.FeatureAddressType
+	// stale: the peer has re-announced its features (an accepted discovery reply) since this subscription was made
+	stale bool
+	// extra: entries for this same pair that the stack granted although the pair was subscribed (reported when it happened;
+	// the model follows the observed state so that one deviation is reported once)
+	extra int
+}
+
 type c01World struct {
 	w        *rig.World
 	T        model.FeatureTypeType
@@ -73,8 +104,15 @@ type c01World struct {
 	srv, cli api.FeatureLocalInterface
 	spc      api.FeatureLocalInterface // a feature of role "special" that is not NodeManagement
 	writable map[model.FunctionType]bool
-	subs     map[string]bool   // "peer|server" reference subscription registry
+	subs     map[string]c01Sub // "peer|client|server" reference subscription registry
 	binds    map[string]string // server -> peer|client
+	// rec: the harness's own record of the data of the local server ("srv|fn") and special ("spc|fn") feature: what it set
+	// through SetData and what accepted full writes carried, after one JSON round trip. Absent = never set.
+	rec map[string]any
+	// unknownRec: functions whose data somebody else than the harness has set (the heartbeat manager's initial value)
+	unknownRec map[string]bool
+	// pending: message counters of requests of the stack that are really outstanding, per peer
+	pending [][]model.MsgCounterType
 }
 
 func c01Feats(T model.FeatureTypeType) []rig.FS {
@@ -83,7 +121,8 @@ func c01Feats(T model.FeatureTypeType) []rig.FS {
 }
 
 func newC01World(c *rig.Ctx, T model.FeatureTypeType) *c01World {
-	cw := &c01World{w: rig.NewWorld(c.Tag()), T: T, fns: rig.FunctionsOf(T), writable: map[model.FunctionType]bool{}, subs: map[string]bool{}, binds: map[string]string{}}
+	cw := &c01World{w: rig.NewWorld(c.Tag()), T: T, fns: rig.FunctionsOf(T), writable: map[model.FunctionType]bool{}, subs: map[string]c01Sub{}, binds: map[string]string{},
+		rec: map[string]any{}, unknownRec: map[string]bool{}}
 	e := cw.w.AddEntity(model.EntityTypeTypeCEM, []uint{1}, 4*time.Second)
 	cw.srv = e.GetOrAddFeature(T, model.RoleTypeServer) // [1]/1
 	for i, f := range cw.fns {
@@ -96,41 +135,107 @@ func newC01World(c *rig.Ctx, T model.FeatureTypeType) *c01World {
 	for i, f := range cw.fns {
 		cw.spc.AddFunctionType(f.Fn, true, i%2 == 0)
 	}
+	// the heartbeat manager of a DeviceDiagnosis server feature writes its data and notifies subscribers at
+	// wall-clock times: stop the timer; its initial value is data the harness did not set
+	if hm := e.HeartbeatManager(); hm != nil {
+		hm.StopHeartbeat()
+	}
+	if T == model.FeatureTypeTypeDeviceDiagnosis {
+		cw.unknownRec["srv|"+string(model.FunctionTypeDeviceDiagnosisHeartbeatData)] = true
+	}
 	for i := 0; i < 3; i++ {
 		p := cw.w.AddPeer(i)
 		p.Ctr = uint64(i+1) * 100000
 		p.Announce(c01Feats(T))
-		p.Tap.Take()
+		// what the stack has asked this peer and nobody answered: the subscription call and the use case read
+		// (the discovery read carries counter 1, which Announce references)
+		var pend []model.MsgCounterType
+		for _, d := range p.Tap.Take() {
+			if d.Header.MsgCounter != nil && d.Header.CmdClassifier != nil && (*d.Header.CmdClassifier == model.CmdClassifierTypeRead || *d.Header.CmdClassifier == model.CmdClassifierTypeCall) {
+				pend = append(pend, *d.Header.MsgCounter)
+			}
+		}
+		cw.pending = append(cw.pending, pend)
 	}
 	cw.w.Core.Take()
 	return cw
 }
 
+// c01RT: the value as a receiver of the wire form sees it (fidelity of the encoding is C18's subject).
+func c01RT(fn rig.FnInfo, v any) any {
+	b, err := json.Marshal(rig.CmdFor(fn.Fn, v))
+	if err != nil {
+		return v
+	}
+	var cmd model.CmdType
+	if err := json.Unmarshal(b, &cmd); err != nil {
+		return v
+	}
+	cd, err := cmd.Data()
+	if err != nil || cd.Function == nil || *cd.Function != fn.Fn {
+		return v
+	}
+	return cd.Value
+}
+
+func (cw *c01World) setData(which string, f rig.FnInfo, v any) {
+	feat := cw.srv
+	if which == "spc" {
+		feat = cw.spc
+	}
+	feat.SetData(f.Fn, v)
+	cw.rec[which+"|"+string(f.Fn)] = c01RT(f, v)
+	delete(cw.unknownRec, which+"|"+string(f.Fn))
+}
+
 type c01Cell struct {
-	dest  string // nm | server | client | special | unknown
+	dest  string // nm | server | client | special | unknown | foreign
 	fn    rig.FnInfo
 	cl    model.CmdClassifierType
 	ack   bool
 	ackf  bool // without ack: the header carries an explicit "ackRequest": false instead of omitting the element
 	gen   bool // generated payload instead of an empty one
 	nodev bool // the device part of the destination address is omitted (legal; it defaults to the recipient)
+	form  int  // unknown: which address form; foreign: which device name
+	two   bool // the datagram carries the cmd twice
+	real  bool // reply/result: the reference is a request of the stack that is really outstanding
 }
 
+var c01UnknownForms = []string{"[1]/9 unknown feature", "[9]/1 unknown entity", "[1,9]/1 unknown nested entity", "[1,1]/1 existing feature number under an entity that does not exist", "[0]/9 unknown feature of the device information entity"}
+
 func (x c01Cell) String() string {
-	return fmt.Sprintf("%s %s %s ack=%v explicitFalse=%v gen=%v nodev=%v", x.dest, x.cl, x.fn.Fn, x.ack, x.ackf, x.gen, x.nodev)
+	s := fmt.Sprintf("%s %s %s ack=%v explicitFalse=%v gen=%v nodev=%v", x.dest, x.cl, x.fn.Fn, x.ack, x.ackf, x.gen, x.nodev)
+	if x.dest == "unknown" {
+		s += " form=" + c01UnknownForms[x.form]
+	}
+	if x.dest == "foreign" {
+		s += fmt.Sprintf(" device=%d", x.form)
+	}
+	if x.two {
+		s += " cmd-twice"
+	}
+	if x.real {
+		s += " real-reference"
+	}
+	return s
 }
 
 var c01Classifiers = []model.CmdClassifierType{model.CmdClassifierTypeRead, model.CmdClassifierTypeReply, model.CmdClassifierTypeNotify,
 	model.CmdClassifierTypeWrite, model.CmdClassifierTypeCall, model.CmdClassifierTypeResult}
 
-func c01Cells(cw *c01World) []c01Cell {
-	var cells []c01Cell
+func c01NMFns() []rig.FnInfo {
 	var nmFns []rig.FnInfo
 	for _, f := range rig.CmdFields() {
 		if strings.HasPrefix(string(f.Fn), "nodeManagement") {
 			nmFns = append(nmFns, f)
 		}
 	}
+	return nmFns
+}
+
+func c01Cells(cw *c01World) []c01Cell {
+	var cells []c01Cell
+	nmFns := c01NMFns()
 	// two functions foreign to T
 	var foreign []rig.FnInfo
 	other := model.FeatureTypeTypeMeasurement
@@ -141,7 +246,7 @@ func c01Cells(cw *c01World) []c01Cell {
 		foreign = fs[:2]
 	}
 	result := rig.FnInfo{Fn: "RESULT"}
-	for _, dest := range []string{"nm", "server", "client", "special", "unknown"} {
+	for _, dest := range []string{"nm", "server", "client", "special", "unknown", "foreign"} {
 		fns := cw.fns
 		if dest == "nm" {
 			fns = nmFns
@@ -155,6 +260,9 @@ func c01Cells(cw *c01World) []c01Cell {
 				}
 				for _, ack := range []bool{false, true} {
 					for _, nodev := range []bool{false, true} {
+						if dest == "foreign" && nodev {
+							continue // the foreign device part IS the point
+						}
 						cells = append(cells, c01Cell{dest: dest, fn: f, cl: cl, ack: ack, nodev: nodev})
 					}
 				}
@@ -162,6 +270,27 @@ func c01Cells(cw *c01World) []c01Cell {
 		}
 	}
 	return cells
+}
+
+// c01Allowed is one datagram without the request's reference that the stack may emit after the current request.
+type c01Allowed struct {
+	peer     int
+	cl       model.CmdClassifierType
+	src, dst string // JSON of the addresses
+	fn       model.FunctionType
+	kind     string
+	used     bool
+}
+
+func c01FnOf(d model.DatagramType) model.FunctionType {
+	if len(d.Payload.Cmd) != 1 {
+		return model.FunctionType(fmt.Sprintf("(%d cmds)", len(d.Payload.Cmd)))
+	}
+	cd, err := d.Payload.Cmd[0].Data()
+	if err != nil || cd.Function == nil {
+		return "(none)"
+	}
+	return *cd.Function
 }
 
 func c01Case(c *rig.Ctx) {
@@ -179,6 +308,24 @@ func c01Case(c *rig.Ctx) {
 	w := cw.w
 	r := c.Rand
 
+	// the rows of the matrix are what the function table yields: pinned
+	if n := len(cw.fns); n != c01PinnedRows[T] {
+		c.Violate("matrix/function-rows-differ-from-pinned", "feature type %s registers %d functions, the pinned request matrix has %d rows for it: %v", T, n, c01PinnedRows[T], cw.fns)
+	}
+	if c.Index == 0 {
+		for ft, n := range c01PinnedRows {
+			if got := len(rig.FunctionsOf(ft)); got != n {
+				c.Violate("matrix/function-rows-differ-from-pinned", "feature type %s registers %d functions, the pinned request matrix has %d rows for it", ft, got, n)
+			}
+		}
+		if len(types) != len(c01PinnedRows) {
+			c.Violate("matrix/function-rows-differ-from-pinned", "%d feature types with functions, pinned %d", len(types), len(c01PinnedRows))
+		}
+		if n := len(c01NMFns()); n != c01PinnedNMRows {
+			c.Violate("matrix/function-rows-differ-from-pinned", "%d nodeManagement payload fields in model.CmdType, pinned %d", n, c01PinnedNMRows)
+		}
+	}
+
 	srvAddr, cliAddr := cw.srv.Address(), cw.cli.Address()
 	peerClient := func(p *rig.Peer) *model.FeatureAddressType { return rig.FA(p.Addr, srcEnt, 1) }
 	peerServer := func(p *rig.Peer) *model.FeatureAddressType { return rig.FA(p.Addr, srcEnt, 2) }
@@ -186,14 +333,31 @@ func c01Case(c *rig.Ctx) {
 		return p.Ski + "|" + peerClient(p).String() + "|" + server.String()
 	}
 	holder := func(p *rig.Peer) string { return p.Ski + "|" + peerClient(p).String() }
+	peerIdx := func(p *rig.Peer) int {
+		for i, q := range w.Peers {
+			if q == p {
+				return i
+			}
+		}
+		return -1
+	}
 
 	if prefixed {
+		// data for (nearly) every function of both data features, then subscriptions, bindings and re-set data
+		for _, f := range cw.fns {
+			if r.Intn(6) != 0 {
+				cw.setData("srv", f, rig.GenVal(r, reflect.PtrTo(f.T), 0).Interface())
+			}
+			if r.Intn(6) != 0 {
+				cw.setData("spc", f, rig.GenVal(r, reflect.PtrTo(f.T), 0).Interface())
+			}
+		}
 		for i := 0; i < 6; i++ {
 			p := w.Peers[r.Intn(3)]
 			switch r.Intn(3) {
 			case 0:
 				p.Subscribe(peerClient(p), srvAddr, T)
-				cw.subs[key(p, srvAddr)] = true
+				cw.subs[key(p, srvAddr)] = c01Sub{peer: peerIdx(p), client: peerClient(p)}
 			case 1:
 				if _, bound := cw.binds[srvAddr.String()]; !bound {
 					p.Bind(peerClient(p), srvAddr, T)
@@ -201,8 +365,8 @@ func c01Case(c *rig.Ctx) {
 				}
 			default:
 				f := cw.fns[r.Intn(len(cw.fns))]
-				cw.srv.SetData(f.Fn, rig.GenVal(r, reflect.PtrTo(f.T), 0).Interface())
-				cw.spc.SetData(f.Fn, rig.GenVal(r, reflect.PtrTo(f.T), 0).Interface())
+				cw.setData("srv", f, rig.GenVal(r, reflect.PtrTo(f.T), 0).Interface())
+				cw.setData("spc", f, rig.GenVal(r, reflect.PtrTo(f.T), 0).Interface())
 			}
 		}
 		for _, p := range w.Peers {
@@ -211,26 +375,145 @@ func c01Case(c *rig.Ctx) {
 	}
 
 	cells := c01Cells(cw)
+	// the order of the requests is part of the history: a fresh one per case
+	r.Shuffle(len(cells), func(a, b int) { cells[a], cells[b] = cells[b], cells[a] })
 	classesSeen := map[string]bool{}
 	var replies, oks, errs int
 	var trace []string
 	p := w.Peers[sender]
+
+	// send delivers one datagram carrying cmd once or twice
+	send := func(cl model.CmdClassifierType, src, dst *model.FeatureAddressType, ack, ackf, twice bool, ref *model.MsgCounterType, cmd model.CmdType) model.MsgCounterType {
+		mc := p.NextCounter()
+		d := rig.Datagram(cl, src, dst, mc, ack, ref, cmd)
+		if !ack && ackf {
+			d.Datagram.Header.AckRequest = util.Ptr(false)
+		}
+		if twice {
+			d.Datagram.Payload.Cmd = append(d.Datagram.Payload.Cmd, cmd)
+		}
+		b, err := json.Marshal(d)
+		if err != nil {
+			panic("harness: cannot marshal datagram: " + err.Error())
+		}
+		p.Raw(b)
+		return mc
+	}
+	// collect takes every tap; it returns the classification of the sender's tap, reports referencing datagrams on
+	// other taps and judges every datagram without the reference against the allowed ones
+	collect := func(id string, reqCl model.CmdClassifierType, mc model.MsgCounterType, allowed []c01Allowed, judgeUnref bool) rig.Resp {
+		var res rig.Resp
+		for qi, q := range w.Peers {
+			o := rig.Classify(q.Tap.Take(), mc)
+			if q == p {
+				res = o
+			} else if len(o.All) > 0 {
+				c.Violate("response-on-other-peer", "%s\n peer %d received %s", id, qi, rig.JS(o.All))
+			}
+			c.Events(int64(len(o.Unref)))
+			for _, d := range o.Unref {
+				cl := model.CmdClassifierType("(none)")
+				if d.Header.CmdClassifier != nil {
+					cl = *d.Header.CmdClassifier
+				}
+				fn := c01FnOf(d)
+				ok := false
+				for ai := range allowed {
+					a := &allowed[ai]
+					if !a.used && a.peer == qi && a.cl == cl && a.fn == fn && a.src == rig.JS(d.Header.AddressSource) && a.dst == rig.JS(d.Header.AddressDestination) && d.Header.MsgCounterReference == nil {
+						a.used, ok = true, true
+						c.Count("unreferenced-allowed:"+a.kind, 1)
+						if a.kind != "notify-to-subscriber" && d.Header.MsgCounter != nil && qi == sender {
+							cw.pending[sender] = append(cw.pending[sender], *d.Header.MsgCounter)
+						}
+						break
+					}
+				}
+				if !ok && judgeUnref {
+					where := "sender"
+					if q != p {
+						where = "other-peer"
+					}
+					c.Violate("unreferenced/"+string(cl)+"/after-"+string(reqCl)+"/"+where, "%s\n a datagram that does not answer the request was written to peer %d and is none of the datagrams the request may cause %s:\n %s", id, qi, rig.JS(allowed), rig.JS(d))
+				}
+			}
+		}
+		return res
+	}
+	// judgeReply: exactly one cmd, the function read, and the content of the harness's own record
+	judgeReply := func(id string, res rig.Resp, which string, f rig.FnInfo) {
+		for _, d := range res.All {
+			if d.Header.CmdClassifier == nil || *d.Header.CmdClassifier != model.CmdClassifierTypeReply {
+				continue
+			}
+			if len(d.Payload.Cmd) != 1 {
+				c.Violate("reply-cmd-count", "%s\n the reply carries %d cmds: %s", id, len(d.Payload.Cmd), rig.JS(d.Payload))
+				continue
+			}
+			cd, err := d.Payload.Cmd[0].Data()
+			if err != nil || cd.Function == nil || *cd.Function != f.Fn {
+				c.Violate("reply-function", "%s\n reply payload is not recognised as %s: %s", id, f.Fn, rig.JS(d.Payload))
+				continue
+			}
+			if which == "" {
+				continue
+			}
+			k := which + "|" + string(f.Fn)
+			if cw.unknownRec[k] {
+				c.Count("not-judged:reply-content-of-data-the-harness-did-not-set", 1)
+				continue
+			}
+			want, set := cw.rec[k]
+			if !set || rig.IsNil(want) {
+				want = reflect.New(f.T).Interface()
+			}
+			c.Count("reply-content-compared", 1)
+			if rig.CanonAny(cd.Value) != rig.CanonAny(want) {
+				c.Violate("reply-data", "%s\n reply %s != the data set (SetData / accepted write) %s", id, rig.JS(cd.Value), rig.JS(want))
+			}
+		}
+	}
+
 	for ci, cell := range cells {
 		cell.ackf = !cell.ack && r.Intn(2) == 0
 		cell.gen = r.Intn(2) == 0 && cell.cl != model.CmdClassifierTypeRead && cell.cl != model.CmdClassifierTypeResult && cell.dest != "nm"
+		cell.two = r.Intn(5) == 0
+		cell.form = r.Intn(len(c01UnknownForms))
 		var src, dst *model.FeatureAddressType
 		var destFeat api.FeatureLocalInterface
+		which := ""
 		switch cell.dest {
 		case "nm":
 			src, dst, destFeat = p.NM(), rig.LNM, w.Local.NodeManagement()
 		case "server":
-			src, dst, destFeat = peerClient(p), srvAddr, cw.srv
+			src, dst, destFeat, which = peerClient(p), srvAddr, cw.srv, "srv"
 		case "client":
 			src, dst, destFeat = peerServer(p), cliAddr, cw.cli
 		case "special":
-			src, dst, destFeat = peerClient(p), cw.spc.Address(), cw.spc
+			src, dst, destFeat, which = peerClient(p), cw.spc.Address(), cw.spc, "spc"
 		case "unknown":
-			src, dst = peerClient(p), rig.FA(rig.LocalAddr, []uint{1}, 9)
+			src = peerClient(p)
+			switch cell.form {
+			case 0:
+				dst = rig.FA(rig.LocalAddr, []uint{1}, 9)
+			case 1:
+				dst = rig.FA(rig.LocalAddr, []uint{9}, 1)
+			case 2:
+				dst = rig.FA(rig.LocalAddr, []uint{1, 9}, 1)
+			case 3:
+				dst = rig.FA(rig.LocalAddr, []uint{1, 1}, 1)
+			default:
+				dst = rig.FA(rig.LocalAddr, []uint{0}, 9)
+			}
+		case "foreign":
+			// the numbers of the local server feature under another device's name
+			src = peerClient(p)
+			cell.form %= 2
+			dev := "ghost"
+			if cell.form == 1 {
+				dev = w.Peers[(sender+1)%3].Addr
+			}
+			dst = rig.FA(dev, []uint{1}, 1)
 		}
 		var cmd model.CmdType
 		var ref *model.MsgCounterType
@@ -246,6 +529,10 @@ func c01Case(c *rig.Ctx) {
 		if cell.cl == model.CmdClassifierTypeReply {
 			ref = util.Ptr(model.MsgCounterType(77))
 		}
+		if ref != nil && len(cw.pending[sender]) > 0 && r.Intn(3) == 0 {
+			cell.real = true
+			ref = util.Ptr(cw.pending[sender][r.Intn(len(cw.pending[sender]))])
+		}
 		// well-formed bodies for the node management calls and announcements
 		class, want := "", []string(nil)
 		okIfAck := "reply=0 ok=0 err=0"
@@ -254,21 +541,24 @@ func c01Case(c *rig.Ctx) {
 		}
 		const oneErr, oneReply, nothing = "reply=0 ok=0 err=1", "reply=1 ok=0 err=0", "reply=0 ok=0 err=0"
 		isCall := cell.cl == model.CmdClassifierTypeCall
+		local := cell.dest != "unknown" && cell.dest != "foreign"
 		switch {
 		case cmd.NodeManagementSubscriptionRequestCall != nil:
 			cmd.NodeManagementSubscriptionRequestCall = spine.NewNodeManagementSubscriptionRequestCallType(peerClient(p), srvAddr, T)
-			if isCall {
-				if cw.subs[key(p, srvAddr)] {
+			if isCall && local {
+				if sub, has := cw.subs[key(p, srvAddr)]; has && sub.stale {
+					class, want = "call-subscribe-duplicate-after-reannouncement->error", []string{oneErr}
+				} else if has {
 					class, want = "call-subscribe-duplicate->error", []string{oneErr}
 				} else {
 					class, want = "call-subscribe->accepted", []string{okIfAck}
-					cw.subs[key(p, srvAddr)] = true
+					cw.subs[key(p, srvAddr)] = c01Sub{peer: sender, client: peerClient(p)}
 				}
 			}
 		case cmd.NodeManagementSubscriptionDeleteCall != nil:
 			cmd.NodeManagementSubscriptionDeleteCall = spine.NewNodeManagementSubscriptionDeleteCallType(peerClient(p), srvAddr)
-			if isCall {
-				if cw.subs[key(p, srvAddr)] {
+			if isCall && local {
+				if _, has := cw.subs[key(p, srvAddr)]; has {
 					class, want = "call-unsubscribe->accepted", []string{okIfAck}
 					delete(cw.subs, key(p, srvAddr))
 				} else {
@@ -277,7 +567,7 @@ func c01Case(c *rig.Ctx) {
 			}
 		case cmd.NodeManagementBindingRequestCall != nil:
 			cmd.NodeManagementBindingRequestCall = spine.NewNodeManagementBindingRequestCallType(peerClient(p), srvAddr, T)
-			if isCall {
+			if isCall && local {
 				if _, bound := cw.binds[srvAddr.String()]; bound {
 					class, want = "call-bind-bound->error", []string{oneErr}
 				} else {
@@ -287,7 +577,7 @@ func c01Case(c *rig.Ctx) {
 			}
 		case cmd.NodeManagementBindingDeleteCall != nil:
 			cmd.NodeManagementBindingDeleteCall = spine.NewNodeManagementBindingDeleteCallType(peerClient(p), srvAddr)
-			if isCall {
+			if isCall && local {
 				if cw.binds[srvAddr.String()] == holder(p) {
 					class, want = "call-unbind->accepted", []string{okIfAck}
 					delete(cw.binds, srvAddr.String())
@@ -299,10 +589,6 @@ func c01Case(c *rig.Ctx) {
 			cmd.NodeManagementDetailedDiscoveryData = p.Discovery(c01Feats(T), nil, nil)
 		}
 
-		var pre any
-		if destFeat != nil && fn != "RESULT" {
-			pre = destFeat.DataCopy(fn)
-		}
 		inT := false
 		for _, f := range cw.fns {
 			if f.Fn == fn {
@@ -315,6 +601,8 @@ func c01Case(c *rig.Ctx) {
 				class, want = "result->nothing", []string{nothing}
 			case cell.dest == "unknown":
 				class, want = "unknown-destination->error", []string{oneErr}
+			case cell.dest == "foreign":
+				class, want = "foreign-device-destination->error", []string{oneErr}
 			case cell.cl == model.CmdClassifierTypeRead && cell.dest == "client":
 				class, want = "read-client->error", []string{oneErr}
 			case cell.cl == model.CmdClassifierTypeRead && cell.dest == "server" && inT:
@@ -354,8 +642,7 @@ func c01Case(c *rig.Ctx) {
 			nd.Device = nil
 			dst = &nd
 		}
-		p.AckFalse = cell.ackf
-		mc := p.Send(cell.cl, src, dst, cell.ack, ref, cmd)
+		mc := send(cell.cl, src, dst, cell.ack, cell.ackf, cell.two, ref, cmd)
 		c.Events(1)
 		id := fmt.Sprintf("T=%s prefixed=%v peer=%d srcEntity=%v :: %s", T, prefixed, sender, srcEnt, cell)
 		if n := p.PanicCount(); n > 0 {
@@ -363,33 +650,72 @@ func c01Case(c *rig.Ctx) {
 			p.Panics = nil
 			continue
 		}
-		res := rig.Classify(p.Tap.Take(), mc)
-		c.Events(int64(len(res.All)))
-		got := res.String()
-		classesSeen[class] = true
-		c.Count("class:"+class, 1)
-		replies += res.Replies
-		oks += res.Success
-		errs += res.Errors
-		if len(trace) < 12 {
-			trace = append(trace, fmt.Sprintf("%s -> %s [%s]", cell, got, class))
+		// datagrams without the reference that this request may cause (decided after looking at the referenced
+		// responses only for "was it answered with an error")
+		sendTap := w.Peers[sender].Tap.Peek()
+		pre := rig.Classify(sendTap, mc)
+		var allowed []c01Allowed
+		switch {
+		case cell.cl == model.CmdClassifierTypeNotify && destFeat != nil && pre.Errors > 0:
+			allowed = append(allowed, c01Allowed{peer: sender, cl: model.CmdClassifierTypeRead, src: rig.JS(destFeat.Address()), dst: rig.JS(src), fn: fn, kind: "re-read-after-rejected-notify"})
+		case cell.cl == model.CmdClassifierTypeReply && cell.dest == "nm" && fn == model.FunctionTypeNodeManagementDetailedDiscoveryData && pre.Errors == 0:
+			allowed = append(allowed,
+				c01Allowed{peer: sender, cl: model.CmdClassifierTypeCall, src: rig.JS(rig.LNM), dst: rig.JS(p.NM()), fn: model.FunctionTypeNodeManagementSubscriptionRequestCall, kind: "subscribe-after-discovery-reply"},
+				c01Allowed{peer: sender, cl: model.CmdClassifierTypeRead, src: rig.JS(rig.LNM), dst: rig.JS(p.NM()), fn: model.FunctionTypeNodeManagementUseCaseData, kind: "usecase-read-after-discovery-reply"})
+		case class == "write-authorised(count)" && pre.Errors == 0:
+			for _, sub := range cw.subs {
+				for n := 0; n <= sub.extra; n++ {
+					allowed = append(allowed, c01Allowed{peer: sub.peer, cl: model.CmdClassifierTypeNotify, src: rig.JS(srvAddr), dst: rig.JS(sub.client), fn: fn, kind: "notify-to-subscriber"})
+				}
+			}
 		}
+		got := pre.String()
 		match := false
 		for _, x := range want {
 			if x == got {
 				match = true
 			}
 		}
-		if !match || res.OtherRef > 0 {
-			c.Violate(class+"/got:"+strings.ReplaceAll(got, " ", ","), "%s\n want one of %v got %s (other referencing datagrams: %d)\n responses: %s", id, want, got, res.OtherRef, rig.JS(res.All))
+		// a foreign-device destination that was served like a local one is reported below, once; what else it caused is not judged again
+		res := collect(id, cell.cl, mc, allowed, !(cell.dest == "foreign" && !match))
+		c.Events(int64(len(res.All)))
+		classesSeen[class] = true
+		c.Count("class:"+class, 1)
+		if cell.two {
+			c.Count("datagrams-with-the-cmd-twice", 1)
 		}
-		for qi, q := range w.Peers {
-			if q == p {
-				continue
+		if cell.real {
+			c.Count("reply/result-referencing-an-outstanding-request", 1)
+		}
+		if cell.dest == "unknown" {
+			c.Count("unknown-form:"+c01UnknownForms[cell.form], 1)
+		}
+		replies += res.Replies
+		oks += res.Success
+		errs += res.Errors
+		if len(trace) < 12 {
+			trace = append(trace, fmt.Sprintf("%s -> %s [%s]", cell, got, class))
+		}
+		if !match || res.OtherRef > 0 {
+			sig := class + "/got:" + strings.ReplaceAll(got, " ", ",")
+			if cell.dest == "foreign" {
+				// one signature for the whole class: the destination names another device and is served all the same
+				sig = "foreign-device-destination/not-exactly-one-error"
+				if cell.cl == model.CmdClassifierTypeWrite && res.Errors == 0 {
+					// the write went into the local feature with these numbers: its data is no longer what the harness set
+					cw.unknownRec["srv|"+string(fn)] = true
+				}
 			}
-			if o := rig.Classify(q.Tap.Take(), mc); len(o.All) > 0 {
-				c.Violate("response-on-other-peer", "%s\n peer %d received %s", id, qi, rig.JS(o.All))
+			if class == "call-subscribe-duplicate-after-reannouncement->error" {
+				sig = "call-subscribe-duplicate-after-reannouncement/granted"
+				if res.Errors == 0 {
+					sub := cw.subs[key(p, srvAddr)]
+					sub.extra++
+					sub.stale = false
+					cw.subs[key(p, srvAddr)] = sub
+				}
 			}
+			c.Violate(sig, "%s\n want one of %v got %s (other referencing datagrams: %d)\n request destination %s\n responses: %s", id, want, got, res.OtherRef, rig.JS(dst), rig.JS(res.All))
 		}
 		// addressing and reference of every response
 		for _, d := range res.All {
@@ -398,8 +724,8 @@ func c01Case(c *rig.Ctx) {
 			}
 			wantSrc := *dst
 			wantSrc.Device = util.Ptr(model.AddressDeviceType(rig.LocalAddr))
-			if cell.dest == "unknown" && cell.nodev && d.Header.AddressSource != nil {
-				// no local feature is addressed and the request names no device: the statement does not fix the device part
+			if ((cell.dest == "unknown" && cell.nodev) || cell.dest == "foreign") && d.Header.AddressSource != nil {
+				// no local feature is addressed and the request names no (or another) device: the statement does not fix the device part
 				wantSrc.Device = d.Header.AddressSource.Device
 			}
 			if rig.JS(d.Header.AddressSource) != rig.JS(&wantSrc) {
@@ -409,22 +735,46 @@ func c01Case(c *rig.Ctx) {
 				c.Violate("response-without-counter", "%s", id)
 			}
 		}
+		if cell.cl == model.CmdClassifierTypeReply && cell.dest == "nm" && fn == model.FunctionTypeNodeManagementDetailedDiscoveryData && res.Errors == 0 {
+			// the peer's tree has been announced again
+			for k, sub := range cw.subs {
+				if sub.peer == sender {
+					sub.stale = true
+					cw.subs[k] = sub
+				}
+			}
+		}
+		if class == "write-authorised(count)" && match && res.Errors == 0 {
+			// accepted: a write without filters replaces the data
+			cd, _ := cmd.Data()
+			cw.rec["srv|"+string(fn)] = c01RT(cell.fn, cd.Value)
+			delete(cw.unknownRec, "srv|"+string(fn))
+			// and a read right after it returns exactly that
+			mc3 := send(model.CmdClassifierTypeRead, src, srvAddr, false, false, false, nil, rig.CmdFor(fn, reflect.New(cell.fn.T).Interface()))
+			id3 := id + " (read after the accepted write)"
+			res3 := collect(id3, model.CmdClassifierTypeRead, mc3, nil, true)
+			c.Events(1 + int64(len(res3.All)))
+			c.Count("class:read-after-accepted-write->reply", 1)
+			if got3 := res3.String(); got3 != oneReply || res3.OtherRef > 0 {
+				c.Violate("read-after-accepted-write->reply/got:"+strings.ReplaceAll(got3, " ", ","), "%s\n want %s got %s\n responses: %s", id3, oneReply, got3, rig.JS(res3.All))
+			}
+			replies += res3.Replies
+			judgeReply(id3, res3, "srv", cell.fn)
+		}
 		// an authorised write that the DATA LAYER refuses (a partial write naming an identifier the list does not
 		// hold cannot be applied) is a rejected message: exactly one error result, whatever ack says
 		if class == "write-authorised(count)" {
 			if li := rig.ListByFn(fn); li != nil && len(li.Keys) > 0 && li.AllUint {
 				u := rig.Update{Kind: "partial", SelKey: -1, DelSel: -1, Items: []reflect.Value{li.NewItem(r, 1000+r.Intn(9))}}
-				for _, q := range w.Peers {
-					q.Tap.Take()
-				}
-				mc2 := p.Send(model.CmdClassifierTypeWrite, src, dst, cell.ack, nil, li.Cmd(u))
-				res2 := rig.Classify(p.Tap.Take(), mc2)
+				mc2 := send(model.CmdClassifierTypeWrite, src, dst, cell.ack, false, false, nil, li.Cmd(u))
+				id2 := id + " (then a partial write of an identifier the list does not hold)"
+				res2 := collect(id2, model.CmdClassifierTypeWrite, mc2, nil, true)
 				c.Events(1 + int64(len(res2.All)))
 				c.Count("class:write-refused-by-data-layer->error", 1)
 				classesSeen["write-refused-by-data-layer->error"] = true
 				errs += res2.Errors
 				if got2 := res2.String(); got2 != oneErr || res2.OtherRef > 0 {
-					c.Violate("write-refused-by-data-layer->error/got:"+strings.ReplaceAll(got2, " ", ","), "%s\n then a partial write of an identifier the list does not hold: want %s got %s\n responses: %s", id, oneErr, got2, rig.JS(res2.All))
+					c.Violate("write-refused-by-data-layer->error/got:"+strings.ReplaceAll(got2, " ", ","), "%s\n want %s got %s\n responses: %s", id2, oneErr, got2, rig.JS(res2.All))
 				}
 				for _, d := range res2.All {
 					if rig.JS(d.Header.AddressDestination) != rig.JS(src) {
@@ -433,21 +783,19 @@ func c01Case(c *rig.Ctx) {
 				}
 			}
 		}
-		if (class == "read-server->reply" || class == "read-special->reply") && res.Replies == 1 {
-			for _, d := range res.All {
-				if d.Header.CmdClassifier == nil || *d.Header.CmdClassifier != model.CmdClassifierTypeReply || len(d.Payload.Cmd) != 1 {
-					continue
-				}
-				cd, err := d.Payload.Cmd[0].Data()
-				switch {
-				case err != nil || cd.Function == nil || *cd.Function != fn:
-					c.Violate("reply-function", "%s\n reply payload is not recognised as %s: %s", id, fn, rig.JS(d.Payload))
-				case rig.IsNil(pre):
-					if rig.CanonAny(cd.Value) != rig.CanonAny(reflect.New(cell.fn.T).Interface()) {
-						c.Violate("reply-data", "%s\n no data stored, reply carries %s", id, rig.JS(cd.Value))
+		// every reply: exactly one cmd; where a reply is demanded: the function read and its content
+		if res.Replies > 0 {
+			switch class {
+			case "read-server->reply", "read-special->reply":
+				judgeReply(id, res, which, cell.fn)
+			case "read-nodemanagement->reply":
+				judgeReply(id, res, "", cell.fn)
+				c01JudgeNMReply(c, cw, id, res, fn, p)
+			default:
+				for _, d := range res.All {
+					if d.Header.CmdClassifier != nil && *d.Header.CmdClassifier == model.CmdClassifierTypeReply && len(d.Payload.Cmd) != 1 {
+						c.Violate("reply-cmd-count", "%s\n the reply carries %d cmds: %s", id, len(d.Payload.Cmd), rig.JS(d.Payload))
 					}
-				case rig.JS(cd.Value) != rig.JS(pre):
-					c.Violate("reply-data", "%s\n reply %s != current data %s", id, rig.JS(cd.Value), rig.JS(pre))
 				}
 			}
 		}
@@ -467,6 +815,63 @@ func c01Case(c *rig.Ctx) {
 		c.Seen("response_classes", k)
 	}
 	c.Sample(map[string]any{"feature_type": T, "prefixed": prefixed, "sender": sender, "source_entity": srcEnt, "cells": trace, "replies": replies, "success_results": oks, "error_results": errs})
+}
+
+// c01JudgeNMReply: what the statement fixes about the content of a NodeManagement reply — it carries the CURRENT data:
+// the local device (by its address) in the destination list and in the discovery data with every local entity and
+// feature, and exactly the requesting device's entries of the subscription and binding registries.
+func c01JudgeNMReply(c *rig.Ctx, cw *c01World, id string, res rig.Resp, fn model.FunctionType, p *rig.Peer) {
+	for _, d := range res.All {
+		if d.Header.CmdClassifier == nil || *d.Header.CmdClassifier != model.CmdClassifierTypeReply || len(d.Payload.Cmd) != 1 {
+			continue
+		}
+		cmd := d.Payload.Cmd[0]
+		switch fn {
+		case model.FunctionTypeNodeManagementDestinationListData:
+			dl := cmd.NodeManagementDestinationListData
+			ok := dl != nil && len(dl.NodeManagementDestinationData) == 1
+			if ok {
+				dd := dl.NodeManagementDestinationData[0].DeviceDescription
+				ok = dd != nil && dd.DeviceAddress != nil && dd.DeviceAddress.Device != nil && string(*dd.DeviceAddress.Device) == rig.LocalAddr
+			}
+			if !ok {
+				c.Violate("reply-data/destination-list", "%s\n the destination list does not name exactly the local device %s: %s", id, rig.LocalAddr, rig.JS(d.Payload))
+			}
+		case model.FunctionTypeNodeManagementDetailedDiscoveryData:
+			dd := cmd.NodeManagementDetailedDiscoveryData
+			ents, feats := 0, 0
+			for _, e := range cw.w.Local.Entities() {
+				ents++
+				feats += len(e.Features())
+			}
+			ok := dd != nil && dd.DeviceInformation != nil && dd.DeviceInformation.Description != nil && dd.DeviceInformation.Description.DeviceAddress != nil &&
+				dd.DeviceInformation.Description.DeviceAddress.Device != nil && string(*dd.DeviceInformation.Description.DeviceAddress.Device) == rig.LocalAddr &&
+				len(dd.EntityInformation) == ents && len(dd.FeatureInformation) == feats
+			if !ok {
+				c.Violate("reply-data/detailed-discovery", "%s\n the discovery reply does not describe the local device %s with its %d entities and %d features: %s", id, rig.LocalAddr, ents, feats, rig.JS(d.Payload))
+			}
+		case model.FunctionTypeNodeManagementSubscriptionData:
+			want := 0
+			for k, sub := range cw.subs {
+				if strings.HasPrefix(k, p.Ski+"|") {
+					want += 1 + sub.extra
+				}
+			}
+			if sd := cmd.NodeManagementSubscriptionData; sd == nil || len(sd.SubscriptionEntry) != want {
+				c.Violate("reply-data/subscription-list", "%s\n the requesting device holds %d subscriptions: %s", id, want, rig.JS(d.Payload))
+			}
+		case model.FunctionTypeNodeManagementBindingData:
+			want := 0
+			for _, h := range cw.binds {
+				if strings.HasPrefix(h, p.Ski+"|") {
+					want++
+				}
+			}
+			if bd := cmd.NodeManagementBindingData; bd == nil || len(bd.BindingEntry) != want {
+				c.Violate("reply-data/binding-list", "%s\n the requesting device holds %d bindings: %s", id, want, rig.JS(d.Payload))
+			}
+		}
+	}
 }
 
 func c01NMReadable(fn model.FunctionType) bool {
